@@ -47,7 +47,7 @@ func (*engine) Plan(tier string) int64 {
 	if tier == "thorough" {
 		return 9000
 	}
-	return 1400
+	return 2800
 }
 
 const (
